@@ -18,7 +18,7 @@ RULE = ("cases = (program shape, catch nesting, driver configuration); shapes: e
         "strings / arrays / mappings / buffers; configurations vary MaxEvaluationCost, MaxCallDepth, StackSize, MaxArraySize, MaxMappingSize, "
         "MaxStringLength, MaxBufferSize (a fresh driver per configuration). non-trivial = the evaluation hit at least one limit; "
         "distinct = (shape, limit message class, catch depth, configuration)")
-ASSUMPTIONS = ["the H1 dispatch hook counts every interpreted instruction, including the master's error_handler, hence the bound 2 x MaxEvaluationCost + 200",
+ASSUMPTIONS = ["the H1 dispatch hook counts every interpreted instruction, including the master's error_handler, hence the bound 2 x MaxEvaluationCost + 200 (+ 16 x MaxCallDepth for the master whose handler uses catch: one more handler run per catch level passed)",
                "work done inside one efun call is not counted by the evaluation cost",
                "value sizes are sampled on the top three stack slots at every instruction and on the returned value"]
 NONTRIVIAL_FLOOR = {"quick": 100, "thorough": 1000}
@@ -104,7 +104,7 @@ UNCATCHABLE_MARKERS = ["too long evaluation", "too deep recursion", "stack overf
 shape_names = sorted(SHAPES)
 cases = st.fixed_dictionaries(dict(shape=st.sampled_from(shape_names), catch=st.integers(0, 3), cfg=st.integers(0, 5),
                                    # a master without error_handler(): the driver then reports errors itself and makes no apply at the moment of the error
-                                   master=st.sampled_from(["std", "std", "absent"]),
+                                   master=st.sampled_from(["std", "std", "absent", "catching"]),
                                    n=st.sampled_from([1, 7, 8, 9, 31, 33, 100, 257, 1000, 2001, 5000, 20000, 70000, 100001, 1000000])))
 
 
@@ -161,6 +161,11 @@ class Pool:
             if master == "absent":
                 from ..worker import BASE_MUDLIB
                 files["master.c"] = open(os.path.join(BASE_MUDLIB, "master.c")).read().replace("mixed error_handler(", "mixed error_handler_absent(")
+            if master == "catching":
+                # an error handler that protects its own logging with catch(), as mudlib handlers do: a catch completes while the error is being handled
+                from ..worker import BASE_MUDLIB
+                files["master.c"] = open(os.path.join(BASE_MUDLIB, "master.c")).read().replace(
+                    "mixed error_handler(mapping m, int caught) {", "mixed error_handler(mapping m, int caught) {\n  mixed lerr = catch(last_error = \"\" + m[\"error\"]);")
             w = Worker(self.ctx.scratch("w%d%s" % (i, master)), conf=conf, timeout=20, mudlib_files=files)
             self.workers[(i, master)] = w
         return w
@@ -198,6 +203,10 @@ def evaluate_case(ctx, pool, case):
     w.write("t/c04.c", src)
     mec = cfg["MaxEvaluationCost"]
     budget = 2 * mec + 200
+    if case.get("master") == "catching":
+        # every catch level the uncatchable error passes on its way out runs the handler once more; this handler costs a few
+        # instructions more than the standard one (under 16 per invocation), and there are at most MaxCallDepth levels
+        budget += 16 * cfg["MaxCallDepth"]
     steps = [["load", "t/c04.c"], ["monitor", "reset"], ["monitor", "on"], ["budget", budget], ["call", "t/c04", "run"],
              ["monitor", "report"], ["monitor", "off"], ["regs"], ["monitor", "reset"], ["call", "/master", "get_root_uid"]]
     res = w.run(steps)
